@@ -142,4 +142,9 @@ def obligations(tier, seed):
         for (o, c) in spans:
             obs.append({"name": "prim-around/%s/gap=%d-%d" % (tag, o + 1, c - 1), "fn": "ob_prim_around",
                         "P": dict(p, ga=o + 1, gb=c - 1), "timeout": T})
+    # replace-around steps with an EMPTY gap (two adjacent map ranges, the second of length 0): wrapping "nothing"
+    for (sn, i, gaps) in ([("list", 0, [3])] if tier == "quick" else [("list", 0, [0, 3, 7]), ("list", 9, [1, 2]), ("strict", 0, [4])]):
+        p = {"schema": sn, "doc": i, "prim": True}
+        for g in gaps:
+            obs.append({"name": "prim-around/%s#%d/emptygap=%d" % (sn, i, g), "fn": "ob_prim_around", "P": dict(p, ga=g, gb=g), "timeout": T})
     return obs
